@@ -17,7 +17,10 @@
 //!
 //! endings: X = consuming finish (`finish(self)` / `into_inner().finish()`), T = `try_finish()`
 //! then drop, D = drop only, R = `alignment::io::Write::finish` then drop, M = MT `finish()`,
-//! C = `cram try_finish(&header)`, - = nothing (unbuffered writers).
+//! C = `cram try_finish(&header)`, U = `noodles_util::alignment::io::Writer::finish`,
+//! - = nothing (unbuffered writers).
+//! ubam/ubamraw/usam/usamgz = the noodles-util alignment writer (BGZF BAM, BufWriter BAM,
+//! BufWriter SAM, BGZF SAM).
 
 use std::{
     io::{self, BufRead, Read, Write},
@@ -52,6 +55,7 @@ use noodles_gff as gff;
 use noodles_gtf as gtf;
 use noodles_sam as sam;
 use noodles_tabix as tabix;
+use noodles_util::alignment as ualn;
 use noodles_vcf as vcf;
 use nv::{
     Case, CaseWriter, Obs, Outcome, Rng,
@@ -422,7 +426,7 @@ fn fixture(fmt: &str, seed: u64) -> Fx {
             }
             Fx::Chunks(v)
         }
-        "sam" | "samgz" | "bam" | "bamraw" | "cram" => {
+        "sam" | "samgz" | "bam" | "bamraw" | "cram" | "ubam" | "ubamraw" | "usam" | "usamgz" => {
             let big = seed % 7 == 0 && fmt != "cram";
             let nrec = rng.range(if big { 1 } else { 0 }, 5);
             let text = sam_text(rng, fmt == "cram", nrec, big);
@@ -664,6 +668,22 @@ fn drive(fmt: &str, ending: &str, fx: &Fx, sink: TSink, tr: &mut Tr) {
                 op!(tr, w.write_variant_record(h, r));
             }
         }
+        ("ubam" | "ubamraw" | "usam" | "usamgz", Fx::Sam(h, recs)) => {
+            use ualn::io::{CompressionMethod, Format};
+            let b = ualn::io::writer::Builder::default();
+            let b = match fmt {
+                "ubam" => b.set_format(Format::Bam),
+                "ubamraw" => b.set_format(Format::Bam).set_compression_method(None),
+                "usam" => b.set_format(Format::Sam),
+                _ => b.set_format(Format::Sam).set_compression_method(Some(CompressionMethod::Bgzf)),
+            };
+            let mut w = b.build_from_writer(sink).expect("noodles-util writer");
+            op!(tr, w.write_header(h));
+            for r in recs {
+                op!(tr, w.write_record(h, r));
+            }
+            op!(tr, w.finish(h));
+        }
         ("cram", Fx::Sam(h, recs)) => {
             let mut w = cram::io::writer::Builder::default().verif_set_records_per_slice(2).build_from_writer(sink);
             op!(tr, w.write_header(h));
@@ -802,6 +822,10 @@ const FORMATS: &[(&str, &[&str])] = &[
     ("bcf", &["T", "X"]),
     ("bcfraw", &["-"]),
     ("cram", &["C"]),
+    ("ubam", &["U"]),
+    ("ubamraw", &["U"]),
+    ("usam", &["U"]),
+    ("usamgz", &["U"]),
     ("sam", &["-"]),
     ("samgz", &["T", "X"]),
     ("vcf", &["-"]),
@@ -822,7 +846,20 @@ const FORMATS: &[(&str, &[&str])] = &[
 const UNBUFFERED: &[&str] = &["sam", "vcf", "bamraw", "bcfraw", "fasta", "fastq", "gff", "gtf", "bed", "bai", "gzi", "fai"];
 /// formats with a "big" fixture class (seed % 7 == 0): more than one BGZF block of payload, so that
 /// the block flush inside write()/write_record is reached and can fail there
-const HAS_BIG: &[&str] = &["bgzf", "mt", "bam", "bamraw", "bcf", "bcfraw", "sam", "samgz", "vcf", "vcfgz"];
+const HAS_BIG: &[&str] = &[
+    "bgzf", "mt", "bam", "bamraw", "bcf", "bcfraw", "sam", "samgz", "vcf", "vcfgz", "ubam", "ubamraw", "usam", "usamgz",
+];
+
+/// the file format a writer produces (selects the decoder)
+fn file_format(fmt: &str) -> &str {
+    match fmt {
+        "ubam" => "bam",
+        "ubamraw" => "bamraw",
+        "usam" => "sam",
+        "usamgz" => "samgz",
+        f => f,
+    }
+}
 
 struct RunOut {
     results: Vec<Result<(), Vec<io::ErrorKind>>>,
@@ -926,7 +963,7 @@ fn ends_with_eof(bs: &[u8]) -> bool {
 }
 
 fn decode(fmt: &str, bs: &[u8]) -> Result<String, String> {
-    let fmt = fmt.to_string();
+    let fmt = file_format(fmt).to_string();
     let bs = bs.to_vec();
     match guarded(move || decode_inner(&fmt, &bs)) {
         Outcome::Done(r) => r.map_err(|e| format!("{:?}", e.kind())),
@@ -1220,7 +1257,19 @@ fn check_failure(
             match decode(fmt, &out.bytes) {
                 Ok(d) if d == rf.decoded => Ok(()),
                 other => {
-                    let tag = if fmt == "bam" && ending == "R" && in_drop {
+                    let tag = if fmt == "bam"
+                        && ending == "R"
+                        && in_drop
+                        && ends_with_eof(&rf.bytes)
+                        && out.bytes.len() < rf.bytes.len()
+                        && out.bytes.starts_with(&rf.bytes[..rf.bytes.len() - 28])
+                        && BGZF_EOF.starts_with(&out.bytes[rf.bytes.len() - 28..])
+                    {
+                        // everything but the EOF marker is there: the generic trait impl flushed
+                        // the data, the marker itself is still written by Drop
+                        "bam-trait-finish-eof-in-drop".to_string()
+                    } else if (fmt == "bam" && ending == "R" || ending == "U") && in_drop {
+                        // the alignment writers' finish does not finish (or flush) the stream
                         "bam-trait-finish-noop".to_string()
                     } else if in_drop && ending == "T" && is_partial_second_eof(&rf.bytes, &out.bytes) {
                         "bgzf-second-eof-in-drop".to_string()
